@@ -320,11 +320,14 @@ def obligations(tier):
             return sym_and(val == want, sym_and(ww == off, sym_not(sym_truthy(sg))))
         add(f"const_cast_cat[{idx}]", "const_cast", f"Const.cast(Cat(consts {shs}))", vs, [], run_cat, post_cat)
     for idx, ((w_, s_), (lo, hi)) in enumerate([((6, False), (1, 4)), ((6, True), (2, 6)), ((5, True), (0, 0)), ((8, True), (3, 8)),
-                                                ((4, False), (4, 4))]):
+                                                ((4, False), (4, 4)), ((4, True), (0, 4)), ((3, False), (0, 3)), ((1, True), (0, 1)),
+                                                ((5, True), (0, 4)), ((5, True), (None, None))]):
+        if lo is None:
+            lo, hi = 0, w_          # written as [:] below
         x = fresh(f"k_{idx}", w_, s_)
 
         def run_slice(k, w_=w_, s_=s_, lo=lo, hi=hi):
-            kk = Const.cast(Const(k, Shape(w_, s_))[lo:hi])
+            kk = Const.cast(Const(k, Shape(w_, s_))[lo:hi] if (lo, hi) != (0, w_) or w_ % 2 else Const(k, Shape(w_, s_))[:])
             return (kk.value, kk.shape().width, kk.shape().signed)
 
         def post_slice(i, r, exc, w_=w_, lo=lo, hi=hi):
@@ -355,6 +358,18 @@ def obligations(tier):
             return init._raw[1]
         add(f"memory_init[{'s' if s_ else 'u'}{w_}]", "init", f"MemoryData.Init row = v, shape {'signed' if s_ else 'unsigned'}({w_})",
             {"iv": iv}, [civ], run_mem, post_init)
+
+        def run_mem_slice(iv, w_=w_, s_=s_):
+            init = MemoryData.Init([0, 0, 0], shape=Shape(w_, s_), depth=3)
+            init[1:3] = [iv, 0]                      # slice assignment wraps like single-row assignment
+            return init._raw[1]
+        add(f"memory_init_slice[{'s' if s_ else 'u'}{w_}]", "init", f"MemoryData.Init rows [1:3] = [v, 0], shape {'signed' if s_ else 'unsigned'}({w_})",
+            {"iv": iv}, [civ], run_mem_slice, post_init)
+
+        def run_mem_ctor(iv, w_=w_, s_=s_):
+            return MemoryData.Init([0, iv], shape=Shape(w_, s_), depth=2)._raw[1]
+        add(f"memory_init_ctor[{'s' if s_ else 'u'}{w_}]", "init", f"MemoryData.Init([0, v]), shape {'signed' if s_ else 'unsigned'}({w_})",
+            {"iv": iv}, [civ], run_mem_ctor, post_init)
 
     # --- Signal(range(...), init=v) raises exactly when v is outside the range
     for rg in [range(0, 10), range(-3, 4), range(2, 16, 3), range(5, -5, -2), range(0, 1), range(0, 0), range(-8, -2)]:
